@@ -397,3 +397,49 @@ func GenSPConfig(txt, attrTxt TextOpts) *rapid.Generator[SPConfig] {
 		return c
 	})
 }
+
+// DSTTransitions returns the instants (to the second) in the given year at which the UTC offset of the
+// IANA zone changes; found by scanning, so it depends only on the embedded tzdata.
+func DSTTransitions(zone string, year int) []time.Time {
+	loc, err := time.LoadLocation(zone)
+	if err != nil {
+		return nil
+	}
+	var out []time.Time
+	t := time.Date(year, 1, 1, 0, 0, 0, 0, time.UTC)
+	_, prev := t.In(loc).Zone()
+	for t.Year() == year {
+		n := t.Add(time.Hour)
+		if _, off := n.In(loc).Zone(); off != prev {
+			// bisect to the second
+			lo, hi := t, n
+			for hi.Sub(lo) > time.Second {
+				mid := lo.Add(hi.Sub(lo) / 2).Truncate(time.Second)
+				if _, o := mid.In(loc).Zone(); o != prev {
+					hi = mid
+				} else {
+					lo = mid
+				}
+			}
+			out = append(out, hi)
+			prev = off
+		}
+		t = n
+	}
+	return out
+}
+
+// GenClockNearDST draws a zone and an instant within a few hours of one of its offset changes
+// (the repeated hour of a fall-back lies within that range).
+func GenClockNearDST() *rapid.Generator[[2]string] {
+	return rapid.Custom(func(t *rapid.T) [2]string {
+		zone := rapid.SampledFrom([]string{"America/New_York", "Europe/Berlin", "Australia/Lord_Howe", "America/Sao_Paulo", "Pacific/Chatham", "Europe/London"}).Draw(t, "dstZone")
+		year := rapid.IntRange(2015, 2037).Draw(t, "dstYear")
+		tr := DSTTransitions(zone, year)
+		if len(tr) == 0 {
+			tr = []time.Time{time.Date(year, 6, 1, 0, 0, 0, 0, time.UTC)}
+		}
+		at := tr[rapid.IntRange(0, len(tr)-1).Draw(t, "dstWhich")].Add(time.Duration(rapid.Int64Range(-3*3600, 3*3600).Draw(t, "dstOffsetSec"))*time.Second + time.Duration(rapid.Int64Range(0, 999999999).Draw(t, "dstNs")))
+		return [2]string{zone, at.UTC().Format(time.RFC3339Nano)}
+	})
+}
